@@ -49,8 +49,8 @@ REST = {
          "Machine-checked theorem C06.refines_cfg/backend: for every haystack, needle set, backend and every finite operation sequence the iterator's outputs equal those of the abstract iterator (front ascending, back descending, each match exactly once, None forever once empty) and size_hint brackets the remaining count."),
  "C08": ("Lean 4 proof (greedy non-overlapping sequence by induction on the position; size_hint bracket; empty needle) + differential correspondence",
          "Machine-checked theorems C08.find_iter_all / rfind_iter_all / size_hint: the next() results of find_iter are exactly Spec.greedyFwd then None forever (rfind_iter: greedyRev), for every needle/haystack/configuration, with the prefilter state threaded through; size_hint brackets the matches still to come in every reachable state; empty needle yields 0..=len once."),
- "C09": ("Lean 4 proof (every configuration's routine equals the same specification; `select` mirrors the cfg chain and is_available) + the same case stream through host AVX2, forced SSE2, forced fallback, emulated NEON, emulated simd128, a build with no vector module at all, alloc-only and +avx2 builds",
-         "Machine-checked theorems C09.agree*: for all pairs of configurations every byte-search and substring routine returns the same value. Correspondence: real code in 8 configurations (host AVX2, forced SSE2, forced fallback, emulated NEON, emulated simd128, no-vector-module target, and - sampled in quick, in full in thorough - the alloc-only and +avx2 builds) against the model instance of each."),
+ "C09": ("Lean 4 proof (every configuration's routine equals the same specification; `select` mirrors the cfg chain and is_available) + the same case stream through host AVX2, forced SSE2, forced fallback, emulated NEON, emulated simd128, a build with no vector module at all, alloc-only, no-alloc and +avx2 builds",
+         "Machine-checked theorems C09.agree*: for all pairs of configurations every byte-search and substring routine returns the same value. Correspondence: real code in 9 configurations (host AVX2, forced SSE2, forced fallback, emulated NEON, emulated simd128, no-vector-module target, and - sampled in quick, in full in thorough - the alloc-only, no-alloc and +avx2 builds) against the model instance of each."),
  "C10": ("Lean 4 proof (corollary of C03 being universally quantified over prefilter config, ranker and PrefilterState) + differential correspondence over 7 ranker families x 2 prefilter settings x prefilter states",
          "Machine-checked theorems C10.find_indep_all / builder_indep_all: results do not depend on the prefilter configuration, the ranker (any function u8->u8) or the adaptive prefilter state; is_effective never faults (after fix F1)."),
  "C11": ("Lean 4 proof (chunk-wise lane invariant for the vector prefilter incl. re-aligned final chunk; portable prefilter loop invariant; find_simple) + differential correspondence",
